@@ -380,11 +380,11 @@ register("C12", streams=[Q("all", apis=ALL_APIS, src=True)],
 register("C13", streams=[Q("parent", apis=["find_matches"], src=None, share=2), Q("parent", apis=ALL_APIS, src=True, share=1)],
          observables=["full_results"],
          rule="paths with parent steps in any position, interleaved with descents, filters and recursion, from a document or a Match; locations incl. the '<-name' trail compared")
-register("C17", streams=[Q("all", apis=["find_matches", "get_match"], src=None)],
-         observables=["trace", "results_exc"], oracles=[oracles.untraced_oracle],
+register("C17", streams=[Q("all", apis=["find_matches", "find", "get_match"], src=None)],
+         observables=["results_exc", "leaf_events", "stamps", "tie:trace"], oracles=[oracles.untraced_oracle],
          rule="full trace event stream (last_match, vertex index, next_match, predicate_match) compared with the machine model; unstamped events compared with the specification stream; traced vs untraced runs compared on the python side")
 register("C20", streams=[Q("all", apis=["find_matches"], src=None, nexts="drain")],
-         observables=["attempts", "results_exc"], oracles=[oracles.work_bound_oracle, oracles.cyclic_oracle],
+         observables=["attempts_bound", "results_exc", "tie:attempts"], oracles=[oracles.work_bound_oracle, oracles.cyclic_oracle],
          rule="number of trace events of a drained search compared with the specification's attempt count and with 2 x examinations; cyclic dict/list structures with the real budget as support")
 
 register("C08", extra=[families.MutateFamily("set", 1500, 60000, "outcome and whole object graph of set_ / set_match histories")],
